@@ -194,17 +194,7 @@ Proof.
   exact (proj1 H).
 Qed.
 
-(** FULL STATEMENT (not finished in round 7; unchecked draft of the remaining proof in
-    docs/props/C15_latest_history_draft.v.txt):
-      latest_history: for all cfg names ops name t,
-        assoc name (c_targets (crun (new_cache cfg names) ops)) = Some t ->
-        t_ts t = zmax_list (tracked_since_reset name (new_cache cfg names) ops)
-    where tracked_since_reset collects, along the run, n_ts n of every MUpd now n addressed to
-    name with tracks_ts n && accepted t now n = true, emptied by Reset / Add / Remove of name.
-    Proved part: [latest_exact] (the exact one-call form, every kind of notification, panicking
-    calls included) and [accepted_multi_spec] (what the acceptance flag of a multi notification
-    means); [generate_meta_updates_keeps] (the refresh loops leave the latest timestamp and its
-    exported value alone). *)
+(** The history form ([latest_history], [latest_history_exported]) is in C15History.v. *)
 
 (** Example: a multi notification on a fresh target whose FIRST update is a
     metadata leaf and whose second creates a real leaf: both units are accepted,
